@@ -15,6 +15,7 @@ func init() {
 
 func checkC16(c *Ctx) {
 	l := c.L
+	checkLegacyPruneAfterReaderScan(c, "DOM-legacy-prune-guards")
 	checkMemoAfterIteratorVerdict(c, "ORDER-memo-after-verdict")
 	c.rule("DOM-format-dispatch", "legacy / new decoder and key-space are selected by the key length consistently", 5)
 	c.rule("FLOW-legacy-node", "legacy decoder: isLegacy set, hash from the storage key, version from the body", 3)
@@ -762,5 +763,33 @@ func checkLegacyRootConsumers(c *Ctx, rule string) {
 		}
 		c.decide(rule, l.fname(cb)+" deletes the root record of every erased legacy version", pos, ok, "every success return passes a Delete of the record's key",
 			"the rollback's legacy walk can leave the root record of an erased version in place (e.g. an early return for the empty version): the version is still listed, the latest legacy version points above the rollback target, and re-committing its number is compared with the stale record")
+	}
+}
+
+// checkLegacyPruneAfterReaderScan (C16; the same obligation is part of C04's
+// DOM-prune-guards): the bulk deletion of the legacy versions in
+// deleteVersionsTo runs only after the scan of open version readers, whose
+// range still covers the legacy versions at that point (the scan uses `first`,
+// which the legacy block moves to the first new-format version afterwards).
+func checkLegacyPruneAfterReaderScan(c *Ctx, rule string) {
+	l := c.L
+	c.rule(rule, "legacy versions are deleted only after the scan of open readers", 1)
+	dvt := l.Func("", "*nodeDB.deleteVersionsTo")
+	dlv := l.Func("", "*nodeDB.deleteLegacyVersions")
+	fReaders := l.Field("", "nodeDB", "versionReaders")
+	if dvt == nil || dlv == nil || fReaders == nil {
+		c.anchorMissing(rule, "deleteVersionsTo / deleteLegacyVersions / versionReaders")
+		return
+	}
+	rng, errExit := readerScan(l, dvt, fReaders)
+	n := 0
+	for _, in := range callsIn(dvt, predStatic(dlv)) {
+		n++
+		c.decide(rule, "deleteVersionsTo deletes the legacy versions after the reader scan", l.ipos(in), rng != nil && errExit && instrDominates(rng, in),
+			"dominated by the scan of versionReaders (which has an error exit)",
+			"the legacy versions are deleted before (or without) the scan of open version readers: an export pinned on a legacy version loses its nodes while it runs")
+	}
+	if n == 0 {
+		c.anchorMissing(rule, "deleteVersionsTo no longer calls deleteLegacyVersions")
 	}
 }
